@@ -113,7 +113,10 @@ def w_filter(case):
         viol.append({'sub': 's1', 'message': 'score of compute_sensitivities differs '
                      'from compute_log_likelihood (%s)' % lab, 'expected': got,
                      'observed': s})
-    if sens.shape != sim.shape or not tol.allclose(sens, eg, 1e-7, 1e-9):
+    # (absolute tolerance relative to the largest entry: an entry that is the
+    # difference of two large terms carries their rounding error)
+    scale = max(1.0, float(np.max(np.abs(eg[np.isfinite(eg)]), initial=0.0)))
+    if sens.shape != sim.shape or not tol.allclose(sens, eg, 1e-7, 1e-9 * scale):
         viol.append({'sub': 'grad', 'message': 'sensitivities are not the '
                      'derivatives w.r.t. every simulated measurement in input '
                      'order (%s)' % lab, 'expected': eg, 'observed': sens,
@@ -199,7 +202,7 @@ def w_filter(case):
     return {'transitions': ntr, 'outcome': tol.rnd([got, sens]), 'violations': viol}
 
 
-WORKERS = {'elementary': w_filter, 'composed': w_filter}
+WORKERS = {'elementary': w_filter, 'composed': w_filter, 'extreme': w_filter}
 
 
 def masks(n_ids, n_obs, T):
@@ -222,6 +225,22 @@ def make_case(blocks, composed, n_ids, n_obs, T, mask, n_sim, seed, double_sort)
                    ).reshape(n_sim, n_obs, T)
     return {'blocks': [list(b) for b in blocks], 'composed': composed, 'y': y,
             'sim': sim.tolist(), 'double_sort': double_sort}
+
+
+def make_extreme(blocks, composed, n_ids, n_obs, T, n_sim, seed, gap):
+    """Mixed fit quality within one call: at the first time point the simulated
+    values lie within 1e-3 of each other and the measurements `gap` away; the other
+    time points are generic."""
+    c = make_case(blocks, composed, n_ids, n_obs, T,
+                  np.zeros((n_ids, n_obs, T), dtype=bool), n_sim, seed, False)
+    sim = np.array(c['sim'])
+    sim[:, :, 0] = 1.0 + 1e-3 * np.arange(n_sim)[:, None] * (
+        1 + 0.1 * np.arange(n_obs)[None, :])
+    for i in range(n_ids):
+        for r in range(n_obs):
+            c['y'][i][r][0] = 1.0 + gap * (1 + 0.05 * i)
+    c['sim'] = sim.tolist()
+    return c
 
 
 def build(tier, seed):
@@ -263,8 +282,23 @@ def build(tier, seed):
                                        else ms[::3]):
                     comp.append(make_case(blocks, True, n_ids, n_obs, T, m, 4, seed,
                                           double_sort=(mi == 0)))
+    extreme = []
+    for n_ids, n_obs, T in [(1, 1, 2), (2, 1, 2), (1, 2, 2), (1, 1, 3)]:
+        for kind, nk in kinds:
+            for gap in (0.05, 0.5, 3.0):
+                n_sim = 2 * nk if kind == 'GM' else 3
+                extreme.append(make_extreme([(kind, T, nk)], False, n_ids, n_obs, T,
+                                            n_sim, seed, gap))
+        for k1, k2 in itertools.permutations(['GKDE', 'GM', 'LNKDE', 'G'], 2):
+            if T < 2:
+                continue
+            extreme.append(make_extreme([(k1, 1, 2), (k2, T - 1, 2)], True, n_ids,
+                                        n_obs, T, 4, seed, 0.5))
     return {
         'parts': [
+            Part('extreme', extreme, w_filter,
+                 'one time point with simulated values within 1e-3 and measurements '
+                 'far away (tens to thousands of bandwidths), the others generic'),
             Part('elementary', elem, w_filter,
                  'filter class x shape x every admissible NaN mask x n_sim'),
             Part('composed', comp, w_filter,
